@@ -74,6 +74,22 @@ func extractFacts(repo string) map[string][]string {
 				return true
 			})
 			out[rel+":"+name] = calls
+			// writers of the struct fields the method translator models: every function of the package that
+			// assigns, increments or takes the address of a selector `<x>.<field>`
+			for _, tg := range methodTargets {
+				if filepath.Dir(tg.File) != filepath.Dir(rel) {
+					continue
+				}
+				for _, fld := range tg.Fields {
+					key := "pkg:" + filepath.Dir(rel) + "#writers." + tg.Recv + "." + fld
+					if _, ok := out[key]; !ok {
+						out[key] = []string{}
+					}
+					if writesField(fd.Body, fld) {
+						out[key] = append(out[key], name)
+					}
+				}
+			}
 		}
 	}
 	return out
@@ -97,4 +113,47 @@ func callName(c *ast.CallExpr) string {
 		n = n[i+1:]
 	}
 	return n
+}
+
+func writesField(body *ast.BlockStmt, fld string) bool {
+	found := false
+	isSel := func(e ast.Expr) bool {
+		for {
+			switch x := e.(type) {
+			case *ast.ParenExpr:
+				e = x.X
+				continue
+			case *ast.IndexExpr:
+				e = x.X
+				continue
+			case *ast.SelectorExpr:
+				return x.Sel.Name == fld
+			}
+			return false
+		}
+	}
+	ast.Inspect(body, func(n ast.Node) bool {
+		switch x := n.(type) {
+		case *ast.AssignStmt:
+			for _, l := range x.Lhs {
+				if isSel(l) {
+					found = true
+				}
+			}
+		case *ast.IncDecStmt:
+			if isSel(x.X) {
+				found = true
+			}
+		case *ast.UnaryExpr:
+			if x.Op == token.AND && isSel(x.X) {
+				found = true
+			}
+		case *ast.KeyValueExpr: // composite literal &T{field: v}
+			if id, ok := x.Key.(*ast.Ident); ok && id.Name == fld {
+				found = true
+			}
+		}
+		return !found
+	})
+	return found
 }
